@@ -20,6 +20,7 @@ from ..prov import FuncFacts
 from ..resolve import Ctx, calls_in
 from . import c15
 from .c01 import _Relabel
+from .common import inline_locals
 
 
 def _raises_under(fn: FuncInfo, pred) -> list[ast.Raise]:
@@ -30,11 +31,21 @@ def _raises_under(fn: FuncInfo, pred) -> list[ast.Raise]:
         gs = [g for g in ff.guards(r) if g.kind in ("if", "case", "early-exit")]
         own = [g for g in gs if g.kind in ("if", "case")][-1:]
         for g in own:
+            # the predicate sees the condition with named intermediate results substituted back (so that
+            # `n = len(p); if n != n_data` and `if len(p) != n_data` are the same guard)
+            from dataclasses import replace
+            from .common import inline_locals, inline_locals
             try:
-                if pred(g, ff):
-                    out.append(r)
+                gi = replace(g, test=inline_locals(ff, g.test))
             except Exception:
-                pass
+                gi = g
+            for cand in (g, gi):
+                try:
+                    if pred(cand, ff):
+                        out.append(r)
+                        break
+                except Exception:
+                    pass
     return out
 
 
@@ -112,8 +123,20 @@ def _type_guards(chk):
                 if not real:
                     continue
                 guards = []
+                loop_of = {}
                 for c in calls_in(entry):
-                    if c.args and isinstance(c.args[0], ast.Name) and c.args[0].id == p:
+                    hit = bool(c.args) and isinstance(c.args[0], ast.Name) and c.args[0].id == p
+                    if not hit and c.args and isinstance(c.args[0], ast.Name):
+                        # `for v in (X, Y): validate(v)` - the loop variable ranges over a display containing the parameter
+                        cur = par.get(id(c))
+                        while cur is not None:
+                            if isinstance(cur, ast.For) and isinstance(cur.target, ast.Name) and cur.target.id == c.args[0].id \
+                                    and isinstance(cur.iter, (ast.Tuple, ast.List)) and any(isinstance(e, ast.Name) and e.id == p for e in cur.iter.elts):
+                                hit = True
+                                loop_of[id(c)] = cur
+                                break
+                            cur = par.get(id(cur))
+                    if hit:
                         ts = ctx.resolve_call(c)
                         if any(t.fn is not None and _is_type_guard(t.fn) for t in ts):
                             guards.append((c, "entry"))
@@ -125,10 +148,13 @@ def _type_guards(chk):
                     gn = ff.cfg.node_for(g)
                     # validation inside `if p is not None:` - the if statement itself must dominate the uses
                     for gd in ff.guards(g):
-                        if gd.kind == "if" and norm(gd.test) == f"{p} is not None" and gd.polarity:
+                        if gd.kind == "if" and gd.polarity and f"{p} is not None" in (norm(gd.test), norm(inline_locals(ff, gd.test))):
                             for stt in ff.statements():
                                 if isinstance(stt, ast.If) and stt.test is gd.test:
                                     gn = ff.cfg.node_of_stmt.get(id(stt), gn)
+                    if id(g) in loop_of:
+                        # the loop statement: it runs the validation for every listed argument before anything after it
+                        gn = ff.cfg.node_of_stmt.get(id(loop_of[id(g)]), gn)
                     others = [u for u in real if not any(u is a for a in ast.walk(g))]
                     # uses under the same `is not None` guard as the validation are fine if dominated by it
                     if all(ff.cfg.dominates(gn, ff.cfg.node_for(u)) or ff.cfg.node_for(u) == gn for u in others):
@@ -171,7 +197,9 @@ def _dims_guard(chk):
         for t in ctx.resolve_call(c):
             if t.fn is None:
                 continue
-            txt = norm(t.fn.node)
+            from .common import class_closure
+            clo = class_closure(pm, sc, t.fn)
+            txt = " ".join(norm(g.node) for g in clo)
             rs = [r for r in walk_no_nested(t.fn.node) if isinstance(r, ast.Raise)]
             if rs and ".dims" in txt and any(a in txt for a in ("self.mean_", "self.std_", "self.weights_", "self.coslat_weights_", "self.feature_dims", "self.sample_dims")):
                 good = c
